@@ -1133,6 +1133,12 @@ def run_concurrent(cfg: dict, setup: list, thread_ops: list, schedule: list, tz=
                         continue
                     k = op["op"]
                     st = None
+                    expected = {"poll": (SQL_POLL_SELECT, SQL_CLAIM, SQL_DELRET), "sweep": (SQL_SWEEP, SQL_DELRET), "ack": (SQL_ACK,),
+                                "resched": (SQL_RESCHED,), "extend": (SQL_EXTEND,), "move": (SQL_DELRET,), "replay": (SQL_DELDLQ,),
+                                "push": (SQL_PUSH,)}.get(k, ())
+                    if not sql.startswith(expected):
+                        out["errors"].append(f"statement not expected inside {k}: {sql}")
+                        continue
                     if sql.startswith(SQL_POLL_SELECT):
                         st = {"op": {"op": "select", "p": j}, "res": ("sel", None)}
                     elif sql.startswith(SQL_CLAIM):
